@@ -623,3 +623,215 @@ Example C01_remaining_ctors_ex :
     CtlMsg.Spec.ErrLen (CtlMsg.Spec.mkLenError 16 15 CtlMsg.Spec.LsSlice CtlMsg.Spec.LIcmpv6 0).
 Proof. vm_compute. repeat split. Qed.
 (* ---- end audit follow-up (round 2) ---- *)
+
+(* ==== round3 c0102 begin ==== *)
+(* ---- round 3 (audit top-12 item 4): packet-level accessors of a STRICT result, stored slice ->
+   iterator compositions, LaxPacketHeaders::from_linux_sll ------------------------------------------
+
+   (a) Parse/PacketAccess.v transliterates SlicedPacket::{payload_ether_type, ether_payload,
+   ip_payload, is_ip_payload_fragmented, vlan, vlan_ids} (sliced_packet.rs 266-403); vlan_ids is the
+   model of Defrag/PacketStep.v (`push_unchecked` on a full ArrayVec<VlanId, 3> = Bug SITE_PUSH).
+   For every result of the four strict entry points: at most 3 link extensions, no packet-level
+   accessor reaches Bug, vlan_ids yields at most as many ids as there are link extensions, and
+   every sub-slice handed back lies inside the input with the input's bytes.  No `bytes_ok` needed.
+   The accessor values / windows of this model are compared with the crate on every case
+   (c01acc lines `peth`, `psll`, `pip`, `pet:<n>`).  LaxSlicedPacket::{vlan, vlan_ids,
+   ether_payload, ip_payload} (the lax type has no other packet-level accessor) are covered by
+   C01_lax_accessors_no_oob / C01_lax_windows_inside above.  Proofs: Parse/PacketAccessProofs.v. *)
+From EP Require Import Parse.PacketAccess Parse.PacketAccessProofs.
+
+Theorem C01_strict_packet_accessors_no_oob : forall bs et p, entry bs et p ->
+  len (sp_exts p) <= LINK_EXTS_CAP /\
+  (forall r, In r (SlicedPacketPA.packet_accessors p) -> forall b, r <> Bug b) /\
+  (exists l, SlicedPacketPA.vlan_ids p = Ok l /\ len l <= len (sp_exts p) /\ len l <= LINK_EXTS_CAP).
+Proof. exact strict_packet_accessors_no_bug. Qed.
+Print Assumptions C01_strict_packet_accessors_no_oob.
+
+Theorem C01_strict_packet_windows_inside : forall bs et p, entry bs et p ->
+  forall r, In r (SlicedPacketPA.packet_windows p) ->
+    exists w, r = Ok w /\ s_off w + s_len w <= len bs /\
+              snd w = take (s_len w) (drop (s_off w) bs).
+Proof. exact strict_packet_windows_inside. Qed.
+Print Assumptions C01_strict_packet_windows_inside.
+
+(* the whole strict result: SlicedPacketPA.accessors = SlicedPacketA.accessors ++ packet_accessors,
+   SlicedPacketPA.windows = SlicedPacketA.windows ++ packet_windows *)
+Theorem C01_strict_all_accessors_no_oob : forall bs et p, bytes_ok bs -> entry bs et p ->
+  forall r, In r (SlicedPacketPA.accessors p) -> forall b, r <> Bug b.
+Proof. exact strict_all_accessors_no_bug. Qed.
+Print Assumptions C01_strict_all_accessors_no_oob.
+
+Theorem C01_strict_all_windows_inside : forall bs et p, bytes_ok bs -> entry bs et p ->
+  forall r, In r (SlicedPacketPA.windows p) ->
+    exists w, r = Ok w /\ s_off w + s_len w <= len bs /\
+              snd w = take (s_len w) (drop (s_off w) bs).
+Proof. exact strict_all_windows_inside. Qed.
+Print Assumptions C01_strict_all_windows_inside.
+
+(* (b) stored slice -> iterator (Parse/StoredIter.v).  TcpSlice / TcpHeaderSlice::options_iterator =
+   TcpOptionsIterator::from_slice(self.options()), iterator model TcpOpt/Model.v; Icmpv6Slice::
+   payload_slice = Icmpv6PayloadSlice::from_type_u8(type_u8(), code_u8(), payload()), models of the
+   enum constructor, the typed payload accessors and NdpOptionsIterator: CtlMsg/Model.v.
+     tcp_iter_ok o      iterate (contents of o) returns (no OOB / Panic / fuel), at most one item per
+                        byte, final state empty and exhausted, every Ok item shrinks the state, and
+                        (bytes_ok) every iterator state is the from_raw_parts window o[k..]
+     payload_slice_ok pw r   r is not UB; an accepted typed payload slice stores the contents of pw, its
+                        accessors return, its options() area is a window pw[k..] and ndp_iter_ok
+     ndp_iter_ok opts   NdpOptionsIterator over opts ends within length+1 calls, yields no UB item,
+                        accessors of every accepted option return, at most len/8 accepted options,
+                        which tile a prefix of opts
+   single layers: EVERY slice value s, every value the constructor returns *)
+From EP Require Import Parse.StoredIter.
+
+Theorem C01_stored_iter_single_layer :
+  (forall s x, TcpSlice.from_slice s = Ok x ->
+     exists o, TcpSliceA.options x = Ok o /\ sub_of o s /\ s_len o = fst x - 20 /\ s_len o <= 40 /\
+               tcp_iter_ok o) /\
+  (forall s h, TcpHeaderSliceA.from_slice s = Ok h ->
+     exists o, TcpHeaderSliceA.options h = Ok o /\ sub_of o s /\ s_len o = s_len h - 20 /\ s_len o <= 40 /\
+               tcp_iter_ok o) /\
+  (forall s v, Icmpv6Slice.from_slice s = Ok v ->
+     exists t c pw,
+       icmpv6_payload_slice v = Ok (pw, P6.from_type_u8 t c (snd pw)) /\
+       sub_of pw s /\ s_len pw = s_len s - 8 /\
+       payload_slice_ok pw (P6.from_type_u8 t c (snd pw))).
+Proof. exact stored_iter_single_layer. Qed.
+Print Assumptions C01_stored_iter_single_layer.
+
+(* whole packets: `stored_transport bs t` = t is the transport slice of a result of one of the four
+   strict or the three lax whole-packet entry points on bs.  The options window, the payload window,
+   the NDP options area and every iterator state lie inside the input (`in_window bs w`: off + len <=
+   len bs and the contents are the input's bytes there) *)
+Theorem C01_packet_tcp_options_iter : forall bs hl s,
+  bytes_ok bs -> stored_transport bs (TrTcp hl s) ->
+  exists o, TcpSliceA.options (hl, s) = Ok o /\ sub_of o s /\ in_window bs o /\
+            s_len o = hl - 20 /\ s_len o <= 40 /\ tcp_iter_in bs o.
+Proof. exact packet_tcp_options_iter. Qed.
+Print Assumptions C01_packet_tcp_options_iter.
+
+Theorem C01_packet_icmp6_payload_slice : forall bs s,
+  stored_transport bs (TrIcmpv6 s) ->
+  exists t c pw,
+    icmpv6_payload_slice s = Ok (pw, P6.from_type_u8 t c (snd pw)) /\
+    sub_of pw s /\ in_window bs pw /\ s_len pw = s_len s - 8 /\
+    payload_slice_in bs pw (P6.from_type_u8 t c (snd pw)).
+Proof. exact packet_icmp6_payload_slice. Qed.
+Print Assumptions C01_packet_icmp6_payload_slice.
+
+(* pin the meaning of the predicates *)
+Check (eq_refl : in_window = fun bs w =>
+  s_off w + s_len w <= len bs /\ snd w = take (s_len w) (drop (s_off w) bs)).
+Check (eq_refl : tail_window = fun o r =>
+  exists k, k <= s_len o /\ subU o k (s_len o - k) = Ok (s_off o + k, r)).
+Check (eq_refl : tcp_iter_in = fun bs o =>
+  exists tr fin,
+    TO.iterate (snd o) = TO.Ret (tr, fin) /\
+    (length tr <= length (snd o))%nat /\
+    fin = [] /\ (forall n, TO.next_n n fin = TO.Ret (repeat None n, [])) /\
+    (forall pre e r post, tr = pre ++ (TO.Ok e, r) :: post -> len r < len (TO.last_rest (snd o) pre)) /\
+    Forall (fun ir => exists k, k <= s_len o /\ in_window bs (s_off o + k, snd ir)) tr).
+Check (eq_refl : stored_transport = fun bs t =>
+  (exists et p, entry bs et p /\ sp_transport p = Some t) \/
+  (exists et p, lax_entry bs et p /\ lsp_transport p = Some t)).
+
+(* (c) LaxPacketHeaders::from_linux_sll never reaches Bug: corollary of C06_sll_start_laxheaders
+   (Err | literal Ok | lh_behind 16 of from_ether_type behind the header) and
+   C04_lax_headers_never_bug.  Parse/LaxHdrSll.v. *)
+From EP Require Import Parse.LaxHdrSll.
+
+Theorem C01_lax_headers_from_linux_sll_no_oob : forall bs b, bytes_ok bs ->
+  EP.Parse.HdrLaxModel.LaxPacketHeaders.from_linux_sll bs <> Bug b.
+Proof. exact lax_headers_from_linux_sll_never_bug. Qed.
+Print Assumptions C01_lax_headers_from_linux_sll_no_oob.
+
+(* ---- non-vacuity ---------------------------------------------------------- *)
+(* the Ethernet / VLAN / IPv4 / UDP packet of C01_accessors_ex: the six packet-level accessor runs
+   are Ok; ether_payload = payload of the VLAN slice (18+32, ether type 0x0800, LenSource::Slice),
+   ip_payload 38+12, vlan = Single(14+36); vlan_ids = [5]; payload_ether_type = None (net is set).
+   The accessor DOES reach its Bug site on a value no entry point returns: 4 VLAN entries *)
+Example C01_strict_packet_accessors_ex :
+  match SlicedPacket.from_ethernet ex_pkt_acc with
+  | Ok p => Some (SlicedPacketPA.packet_accessors p, wins (SlicedPacketPA.packet_windows p),
+                  SlicedPacketPA.vlan_ids p, SlicedPacketPA.payload_ether_type p,
+                  SlicedPacketPA.is_ip_payload_fragmented p,
+                  match SlicedPacketPA.ether_payload p with
+                  | Ok (Some e) => Some (ep_ether_type e, ep_src e, win_of (ep_slice e))
+                  | _ => None
+                  end)
+  | _ => None
+  end =
+  Some ([Ok tt; Ok tt; Ok tt; Ok tt; Ok tt; Ok tt],
+        [Some (18, 32); Some (38, 12); Some (14, 36)],
+        Ok [5], Ok None, Ok false, Some (2048, LsSlice, (18, 32))) /\
+  EP.Defrag.PacketStep.vlan_ids_loop (repeat (LeVlan (0, [0;5;8;0])) 4) [] = Bug SITE_PUSH /\
+  EP.Defrag.PacketStep.vlan_ids_loop (repeat (LeVlan (0, [0;5;8;0])) 3) [] = Ok [5; 5; 5].
+Proof. split; [vm_compute; reflexivity|split; vm_compute; reflexivity]. Qed.
+
+(* IPv4 / TCP with data offset 7: options MSS 1460, NOP, window scale 7 at 40+8; the iterator yields
+   the three options, the states are the tails 44.., 45.., 48.. of the window.
+   IPv6 / ICMPv6 router solicitation with a source link-layer option: payload window 48+8, typed
+   payload slice RouterSolicitation, options area = the payload, one NDP option *)
+Definition ex_tcp_opts : bytes :=
+  [69;0;0;52; 0;0;0;0; 64;6;0;0; 1;2;3;4; 5;6;7;8] ++
+  [0;80; 1;187; 0;0;0;1; 0;0;0;2; 112;16; 16;0; 0;0; 0;0] ++ [2;4;5;180; 1; 3;3;7] ++ [9;9;9;9].
+Definition ex_router_sol : bytes :=
+  [96;0;0;0; 0;16; 58; 255] ++ repeat 1 16 ++ repeat 2 16 ++
+  [133;0;0;0; 0;0;0;0] ++ [1;1; 10;11;12;13;14;15].
+
+Example C01_stored_iter_ex :
+  bytes_ok ex_tcp_opts /\ bytes_ok ex_router_sol /\
+  (exists p hl s, SlicedPacket.from_ip ex_tcp_opts = Ok p /\ sp_transport p = Some (TrTcp hl s) /\
+     stored_transport ex_tcp_opts (TrTcp hl s)) /\
+  match SlicedPacket.from_ip ex_tcp_opts with
+  | Ok (mkSliced _ _ _ (Some (TrTcp hl s))) =>
+      match TcpSliceA.options (hl, s) with
+      | Ok o => Some (win_of o, TO.iterate (snd o))
+      | _ => None
+      end
+  | _ => None
+  end =
+  Some ((40, 8),
+        TO.Ret ([(TO.Ok (TO.MaximumSegmentSize 1460), [1; 3; 3; 7]);
+                 (TO.Ok TO.Noop, [3; 3; 7]); (TO.Ok (TO.WindowScale 7), [])], [])) /\
+  match SlicedPacket.from_ip ex_router_sol with
+  | Ok (mkSliced _ _ _ (Some (TrIcmpv6 s))) =>
+      match icmpv6_payload_slice s with
+      | Ok (pw, CtlMsg.Spec.Ok ps) =>
+          Some (win_of pw, fst ps,
+                match P6.accessors ps with
+                | CtlMsg.Spec.Ok v =>
+                    match pview_options v with
+                    | Some o => Some (o, CtlMsg.Model.Ndp.collect (S (length o)) o)
+                    | None => None
+                    end
+                | _ => None
+                end)
+      | _ => None
+      end
+  | _ => None
+  end =
+  Some ((48, 8), CtlMsg.Spec.PkRouterSolicitation,
+        Some ([1; 1; 10; 11; 12; 13; 14; 15],
+              Some [CtlMsg.Spec.IOk CtlMsg.Spec.KSrcLL [1; 1; 10; 11; 12; 13; 14; 15]])).
+Proof.
+  split; [apply bytes_okb_spec; vm_compute; reflexivity|].
+  split; [apply bytes_okb_spec; vm_compute; reflexivity|].
+  split.
+  { destruct (SlicedPacket.from_ip ex_tcp_opts) as [p| |] eqn:E; [|vm_compute in E; discriminate E..].
+    destruct (sp_transport p) as [[u|hl s|i|i]|] eqn:T;
+      try (vm_compute in E; injection E as <-; discriminate T).
+    exists p, hl, s. split; [reflexivity|]. split; [exact T|]. left. exists 0, p. split; [|exact T].
+    right. right. right. exact E. }
+  split; vm_compute; reflexivity.
+Qed.
+
+(* SLL / IPv4 / UDP: accepted; cut inside the IPv4 header: still Ok (lax); cut inside the SLL header: Err *)
+Definition ex_sll_acc : bytes := [0;0; 0;1; 0;6; 1;2;3;4;5;6;0;0; 8;0] ++ skipn 18 ex_pkt_acc.
+Example C01_lax_headers_from_linux_sll_ex :
+  bytes_ok ex_sll_acc /\
+  (match EP.Parse.HdrLaxModel.LaxPacketHeaders.from_linux_sll ex_sll_acc with Ok _ => 1 | Err _ => 2 | Bug _ => 3 end,
+   match EP.Parse.HdrLaxModel.LaxPacketHeaders.from_linux_sll (firstn 30 ex_sll_acc) with Ok _ => 1 | Err _ => 2 | Bug _ => 3 end,
+   match EP.Parse.HdrLaxModel.LaxPacketHeaders.from_linux_sll (firstn 10 ex_sll_acc) with Ok _ => 1 | Err _ => 2 | Bug _ => 3 end)
+  = (1, 1, 2).
+Proof. split; [apply bytes_okb_spec; vm_compute; reflexivity|vm_compute; reflexivity]. Qed.
+(* ==== round3 c0102 end ==== *)
